@@ -17,7 +17,7 @@ RULE = (
     "stream sets (2-8, thorough 2-12) crossed with utility ladders of 1-4 levels per side (inside pockets, at the pinch, beyond the range; "
     "isothermal and with glide; a part of the budget uses all-isothermal ladders so the optimality oracle applies); oracle (a) for every "
     "DI target: the utility GCC rebuilt by the harness from the reported duties and utility temperatures satisfies 0 <= U(T) <= exact "
-    "pocket-free process GCC at every breakpoint of either curve, and the table column H_net_ut lies within [0, H_net_actual]; oracle (b) "
+    "pocket-free process GCC at every breakpoint of either curve, and the table column H_net_ut lies within [0, H_net_actual] and equals that rebuilt utility GCC row by row; oracle (b) "
     "for ladders whose listed utilities are isothermal (documented 0.1 K expansion) with levels >= 1 K apart: duties equal the lexicographic "
     "LP optimum (HiGHS), lowest grade first. non-trivial = a side with demand has >= 2 levels of which the lowest-grade one lies strictly "
     "between the pinch and the end of the range; distinct by canonical JSON."
@@ -98,6 +98,15 @@ def eval_case(case) -> Outcome:
         for i in range(len(pt)):
             if hut[i] < -rtol or hut[i] > hact[i] + rtol:
                 out.fail("C04.table_ugcc", f"{where}: row T*={pt.col['T'][i]!r}: H_net_ut={hut[i]!r} outside [0, H_net_actual={hact[i]!r}]")
+                break
+        # the column is the utility GCC of the reported duties (the cascade that draws it must use both utility sets)
+        w = Fr(1, 10000)
+        for i in range(len(pt)):
+            Ti = Fr(repr(float(pt.col["T"][i])))
+            slope = sum((r["q"] / max(abs(r["tsf"] - r["ttf"]), Fr(1, 1000)) for r in hu + cu if r["q"] > 0 and min(r["tsf"], r["ttf"]) - w <= Ti <= max(r["tsf"], r["ttf"]) + w), Fr(0))
+            want = float(U.utility_gcc(hu, cu, Ti))
+            if abs(float(hut[i]) - want) > rtol + 5.1e-5 * float(slope):
+                out.fail("C04.table_ugcc_value", f"{where}: row T*={float(Ti)}: H_net_ut={float(hut[i])!r} but the utility GCC of the reported duties is {want!r}")
                 break
         # --- (b) optimality on isothermal ladders with distinct levels
         for side, rows, pinch, total in (("hot", hu, hot_pinch, c.Qh), ("cold", cu, cold_pinch, c.Qc)):
